@@ -96,7 +96,8 @@ def make_oracle(kind):
                       f'{kind} does not keep the total of a non-negative image', wit, scale=S)
         if float(ref.min()) >= -1e-12 * scale:
             ctx.bucket('conv:nonneg')
-            tol = 2 * (im + scale * img.size * im / max(S, 1e-300)) + 1e-10 * scale * prec * (img.size if prec > 1 else 1)
+            # (im / S first: for frames of 1e-200 the product scale * im leaves the doubles)
+            tol = 2 * (im + scale * (img.size * (im / max(S, 1e-300)))) + 1e-10 * scale * prec * (img.size if prec > 1 else 1)
             ctx.close('blur=conv', out, ref, 1.0, f'{kind}|value' + ('|nonsquare' if img.shape[0] != img.shape[1] else ''),
                       f'{kind} output is not the circular convolution with its analytic transfer function', dict(wit, nyquist=im),
                       scale=tol)
